@@ -382,6 +382,9 @@ def check(run: Run):
         import trace_C13
 
         trace_C13.validate(run, scratch)
+        import lock_C13
+
+        lock_C13.run_lock(run, scratch)
     run.cov["rule"] = (
         "every transition (state,label) of the exhaustive DataStore model reachable by the real store, "
         "x {directory, sqlite} x {observe at end, observe after every step}; distinct = distinct (state,label,variant)"
